@@ -1,0 +1,11 @@
+//go:build verif
+
+package prometheus
+
+import "time"
+
+// VerifSetNow replaces the clock used by the collectors. It exists only in
+// builds with the `verif` tag and must be called before the collectors are used.
+func VerifSetNow(f func() time.Time) {
+	now = f
+}
